@@ -6,6 +6,8 @@ All statements are about the constants of `NumqiModel/FinGroup.lean` / `NumqiMod
 that `Driver/C14.lean` executes.
 -/
 import NumqiProofs.FinGroupPerm
+import NumqiProofs.FinGroupDihedral
+import NumqiProofs.YoungPartition
 import NumqiModel.Young
 import Mathlib.Data.Nat.Totient
 import Mathlib.Data.Nat.Factorial.Basic
@@ -74,7 +76,7 @@ theorem cycTable_isGroupTable (n : Nat) (hn : 1 ≤ n) : IsGroupTable (cycTable 
   · intro i j hi hj; rw [hent i j hi hj]; exact hlt _
   · intro i j k hi hj hk
     rw [hent i j hi hj, hent j k hj hk, hent _ k (hlt _) hk, hent i _ hi (hlt _)]
-    simp [Nat.add_mod, Nat.add_assoc]
+    rw [Nat.mod_add_mod, Nat.add_mod_mod, Nat.add_assoc]
   · intro i hi
     rw [hent 0 i (by omega) hi, hent i 0 hi (by omega)]
     simp [Nat.mod_eq_of_lt hi]
@@ -144,9 +146,8 @@ theorem mulTable_isGroupTable (n : Nat) (hn : 2 ≤ n) : IsGroupTable (mulTable 
     obtain ⟨m, hm, hm1⟩ := Nat.exists_mul_mod_eq_one_of_coprime ha'.2.2.symm (by omega : 1 < n)
     have hmc : Nat.Coprime n m := by
       have : Nat.Coprime n (a * m) := by
-        have h := coprime_mod (n := n) (a := 1) (Nat.coprime_one_right n)
-        unfold Nat.Coprime at *
-        rw [Nat.gcd_comm, Nat.gcd_rec, hm1, Nat.gcd_comm]
+        unfold Nat.Coprime
+        rw [Nat.gcd_rec, hm1]
         simp
       exact Nat.Coprime.coprime_mul_left_right this
     have hm0 : 1 ≤ m := by
@@ -156,6 +157,19 @@ theorem mulTable_isGroupTable (n : Nat) (hn : 2 ≤ n) : IsGroupTable (mulTable 
     refine ⟨m, mem_units.2 ⟨hm0, hm, hmc⟩, hm1, ?_⟩
     show (m * a) % n = 1
     rw [Nat.mul_comm]; exact hm1
+
+/-! ## 3b. dihedral group -/
+
+/-- the `2n` rows (`n` rotations from the circulant, `n` reflections from the reversed columns) are pairwise different -/
+theorem dihRows_nodup (n : Nat) (hn : 2 < n) : (dihRows n).Nodup := FinGroup.dihRows_nodup n hn
+
+/-- **`get_dihedral_group_cayley_table(n)` is a group table of order `2n`, for every `n > 2`**
+(rotation∘rotation, rotation∘reflection, … computed mod `n`; `NumqiProofs/FinGroupDihedral.lean`). -/
+theorem dihTable_isGroupTable (n : Nat) (hn : 2 < n) : IsGroupTable (dihTable n) (2 * n) :=
+  dihTable_isGroupTable' n hn
+
+/-- the dihedral table of the triangle is not abelian: `r·s ≠ s·r` -/
+example : entry (dihTable 3) 1 3 ≠ entry (dihTable 3) 3 1 := by decide
 
 /-! ## 4. Klein four-group and quaternion group (literal tables) -/
 
@@ -168,5 +182,269 @@ theorem quatTable_isGroupTable : IsGroupTable quatTable 8 :=
 
 /-- the quaternion group is not abelian, the Klein group is: the two tables are really different objects -/
 example : entry quatTable 1 2 ≠ entry quatTable 2 1 ∧ entry kleinTable 1 2 = entry kleinTable 2 1 := by decide
+
+/-! ## 5. alternating group
+
+The code selects the even permutations by the parity of `Σ (cycle length − 1)`
+(`cycleEven`, model of `permutation_to_cycle_notation`).  That this parity is multiplicative for
+every `n` (it is the sign) is not proved here — `altTable_isGroupTable.Statement` below is the full
+target; what is proved is (a) for every `n`: *if* the selected set is closed under composition and
+inverse and contains the identity (`altClosedB n`, a finite check on the model), the table is a group
+table, and (b) the finite check itself for the sizes the property quantifies over (`A_2 … A_5`). -/
+
+/-- identity is even, inverses of even tuples are even, products of even tuples are even -/
+def altClosedB (n : Nat) : Bool :=
+  cycleEven (List.range n) &&
+    (altPerms n).all fun p => cycleEven (invPerm n p) && (altPerms n).all fun q => cycleEven (compose p q)
+
+theorem mem_altPerms {n : Nat} {p : List Nat} : p ∈ altPerms n ↔ p.Perm (List.range n) ∧ cycleEven p = true := by
+  simp [altPerms, List.mem_filter, mem_perms]
+
+/-- **for every `n`**: closedness of the even-cycle-type filter makes the look-up table a group table. -/
+theorem altTable_isGroupTable_of_closed (n : Nat) (h : altClosedB n = true) :
+    IsGroupTable (altTable n) (altPerms n).length := by
+  simp only [altClosedB, Bool.and_eq_true, List.all_eq_true] at h
+  obtain ⟨hid, hcl⟩ := h
+  refine tableOf_isGroupTable (altPerms n) compose ((nodup_perms n).filter _) ?_ ?_ (List.range n) ?_ ?_ ?_
+  · intro a ha b hb
+    exact mem_altPerms.2 ⟨compose_perm (mem_altPerms.1 ha).1 (mem_altPerms.1 hb).1, (hcl a ha).2 b hb⟩
+  · intro a _ b hb c hc
+    exact compose_assoc (perm_length (mem_altPerms.1 hb).1) (fun x hx => perm_lt (mem_altPerms.1 hc).1 hx)
+  · exact mem_altPerms.2 ⟨List.Perm.refl _, hid⟩
+  · intro a ha
+    exact ⟨compose_range_left (fun x hx => perm_lt (mem_altPerms.1 ha).1 hx),
+      compose_range_right (perm_length (mem_altPerms.1 ha).1)⟩
+  · intro a ha
+    have hp := (mem_altPerms.1 ha).1
+    exact ⟨invPerm n a, mem_altPerms.2 ⟨invPerm_perm hp, (hcl a ha).1⟩,
+      compose_invPerm_right hp, compose_invPerm_left hp⟩
+
+/-- **`get_symmetric_group_cayley_table(n, alternating=True)` is a group table of order `n!/2`
+for `n = 2 … 5`** (`A_3 … A_5` is the range the property states; `A_5` has order 60). -/
+theorem altTable_isGroupTable_le5 (n : Nat) (h2 : 2 ≤ n) (h5 : n ≤ 5) : IsGroupTable (altTable n) (n ! / 2) := by
+  have key : ∀ m, m ∈ [2, 3, 4, 5] → altClosedB m = true ∧ (altPerms m).length = m ! / 2 := by decide +kernel
+  have hn : n ∈ [2, 3, 4, 5] := by simp; omega
+  obtain ⟨hc, hl⟩ := key n hn
+  rw [← hl]
+  exact altTable_isGroupTable_of_closed n hc
+
+/-- the full target (not proved): for every `n ≥ 2` the alternating table is a group table of order `n!/2`.
+Missing step: `cycleEven` is multiplicative for all `n` (equivalently `altClosedB n = true` and
+`(altPerms n).length = n!/2` for all `n`). -/
+def altTable_isGroupTable.Statement : Prop := ∀ n, 2 ≤ n → IsGroupTable (altTable n) (n ! / 2)
+
+/-- the filter is not trivial: `(0 1)` is rejected, the 3-cycle is kept -/
+example : cycleEven [1, 0, 2] = false ∧ cycleEven [1, 2, 0] = true ∧ (altPerms 4).length = 12 := by decide
+
+/-! ## 6. left regular form: a faithful homomorphism into permutation matrices
+
+for **any** group table (so for all of the above), over any semiring `R` (ℤ for the code's `int64`). -/
+
+section leftRegular
+variable {R : Type*} [Semiring R] {T : Table} {N : Nat}
+
+/-- `cayley_table_to_left_regular_form(T)[g]` as a matrix over `R` -/
+def leftReg (R : Type*) [Semiring R] (T : Table) (N : Nat) (g : Fin N) : Matrix (Fin N) (Fin N) R :=
+  fun r c => ((leftRegEntry T g.val r.val c.val : Nat) : R)
+
+/-- the product of the group, on `Fin N` -/
+def mulFin (h : IsGroupTable T N) (g k : Fin N) : Fin N := ⟨entry T g.val k.val, h.closed _ _ g.isLt k.isLt⟩
+
+theorem leftReg_apply (g r c : Fin N) :
+    leftReg R T N g r c = if r.val = entry T g.val c.val then 1 else 0 := by
+  simp [leftReg, leftRegEntry]
+
+/-- **`L(g)·L(k) = L(g·k)`** -/
+theorem leftRegular_mul (h : IsGroupTable T N) (g k : Fin N) :
+    leftReg R T N (mulFin h g k) = leftReg R T N g * leftReg R T N k := by
+  ext r c
+  rw [Matrix.mul_apply, Finset.sum_eq_single (mulFin h k c)]
+  · simp only [leftReg_apply, mulFin]
+    rw [h.assoc _ _ _ g.isLt k.isLt c.isLt]
+    simp
+  · intro x _ hx
+    rw [leftReg_apply (g := k)]
+    have : ¬ x.val = entry T k.val c.val := fun e => hx (Fin.ext e)
+    simp [this]
+  · intro hne; exact absurd (Finset.mem_univ _) hne
+
+/-- **the identity element is mapped to the identity matrix** -/
+theorem leftRegular_one (e : Fin N) (he : ∀ i, i < N → entry T e.val i = i) : leftReg R T N e = 1 := by
+  ext r c
+  rw [leftReg_apply, he c.val c.isLt, Matrix.one_apply]
+  simp [Fin.ext_iff]
+
+/-- **faithful**: different elements have different matrices (needs `0 ≠ 1` in `R`) -/
+theorem leftRegular_injective [Nontrivial R] (h : IsGroupTable T N) : Function.Injective (leftReg R T N) := by
+  intro g k hgk
+  obtain ⟨e, he, hid, _⟩ := h.ident
+  have := congrFun (congrFun hgk g) ⟨e, he⟩
+  rw [leftReg_apply, leftReg_apply] at this
+  simp only [(hid g.val g.isLt).2, (hid k.val k.isLt).2, if_true] at this
+  by_contra hne
+  have : ¬ g.val = k.val := fun e => hne (Fin.ext e)
+  simp_all
+
+/-- left cancellation in a group table -/
+theorem isGroupTable_left_cancel (h : IsGroupTable T N) {g c c' : Nat} (hg : g < N) (hc : c < N) (hc' : c' < N)
+    (heq : entry T g c = entry T g c') : c = c' := by
+  obtain ⟨e, he, hid, hinv⟩ := h.ident
+  obtain ⟨j, hj, _, hjg⟩ := hinv g hg
+  have h1 := h.assoc j g c hj hg hc
+  have h2 := h.assoc j g c' hj hg hc'
+  rw [hjg, (hid c hc).1] at h1
+  rw [hjg, (hid c' hc').1] at h2
+  rw [h1, h2, heq]
+
+/-- **permutation matrices**: `L(g)ᵀ·L(g) = 1` (every row and column has exactly one `1`) -/
+theorem leftRegular_transpose_mul_self (h : IsGroupTable T N) (g : Fin N) :
+    (leftReg R T N g).transpose * leftReg R T N g = 1 := by
+  ext c c'
+  rw [Matrix.mul_apply, Finset.sum_eq_single (mulFin h g c')]
+  · simp only [Matrix.transpose_apply, leftReg_apply, mulFin, Matrix.one_apply]
+    by_cases hcc : c = c'
+    · subst hcc; simp
+    · have : ¬ entry T g.val c'.val = entry T g.val c.val := fun e =>
+        hcc (Fin.ext (isGroupTable_left_cancel h g.isLt c'.isLt c.isLt e).symm)
+      simp [this, hcc]
+  · intro x _ hx
+    rw [leftReg_apply (c := c')]
+    have : ¬ x.val = entry T g.val c'.val := fun e => hx (Fin.ext e)
+    simp [this]
+  · intro hne; exact absurd (Finset.mem_univ _) hne
+
+end leftRegular
+
+/-- the hypotheses are satisfiable: e.g. the quaternion group over ℤ, where `L` separates `i·j = k` from `j·i = -k` -/
+example : leftReg ℤ quatTable 8 (mulFin quatTable_isGroupTable 1 2) = leftReg ℤ quatTable 8 1 * leftReg ℤ quatTable 8 2 :=
+  leftRegular_mul quatTable_isGroupTable 1 2
+
+/-! ## 6b. partitions: the recurrence of `get_sym_group_num_irrep` and the Young-diagram array, all `N` -/
+
+/-- **the rows of `z0[(n,m)]` are exactly the partitions of `n` into at most `m` parts**
+(non-increasing rows of length `m`, zero padded, sum `n`), **each once**. -/
+theorem young_exact (m n : Nat) :
+    (young m n).Nodup ∧ ∀ row, row ∈ young m n ↔ IsPartRow m n row :=
+  ⟨nodup_young m n, mem_young m n⟩
+
+/-- **the table of `_get_sym_group_num_irrep_hf0` counts them**: `z0[n,m] = #{partitions of n into ≤ m parts}`
+(`= #{partitions of n with parts ≤ m}` by conjugation), for every `m ≥ 1` and every `n`
+(column `m = 0` of the code's table is a literal `1` that the recurrence never reads). -/
+theorem numIrrepTable_eq (m n : Nat) (hm : 1 ≤ m) : z0 m n = (young m n).length :=
+  (length_young m n hm).symm
+
+/-- **`get_sym_group_num_irrep(N)` is the number of partitions of `N`** (Mathlib's `Nat.Partition`), every `N ≥ 1`. -/
+theorem numIrrep_eq_card_partition (N : Nat) (hN : 1 ≤ N) : numIrrep N = Fintype.card (Nat.Partition N) :=
+  Young.numIrrep_eq_card_partition N hN
+
+/-- **`get_sym_group_young_diagram(N)` lists exactly the partitions of `N`, each once**, and there are
+`get_sym_group_num_irrep(N)` of them. -/
+theorem youngDiagrams_exact (N : Nat) (hN : 1 ≤ N) :
+    (youngDiagram N).Nodup ∧ (∀ row, row ∈ youngDiagram N ↔ IsPartRow N N row) ∧
+      (youngDiagram N).length = numIrrep N :=
+  ⟨(youngDiagram_exact N hN).1, (youngDiagram_exact N hN).2, length_youngDiagram N hN⟩
+
+/-- the shapes handed to the tableau code are exactly the partitions of `N` as non-increasing positive lists -/
+theorem shapes_exact (N : Nat) (hN : 1 ≤ N) (shape : List Nat) :
+    shape ∈ shapes N ↔ shape.Pairwise (· ≥ ·) ∧ (∀ x ∈ shape, 0 < x) ∧ shape.sum = N :=
+  mem_shapes N hN shape
+
+/-- not vacuous: `p(10) = 42`, and the array for `N = 4` is the five partitions of 4 -/
+example : numIrrep 10 = 42 ∧ youngDiagram 4 = [[4,0,0,0],[3,1,0,0],[2,2,0,0],[2,1,1,0],[1,1,1,1]] := by
+  constructor
+  · rw [← length_youngDiagram 10 (by norm_num)]; decide +kernel
+  · decide
+
+/-! ## 7. standard Young tableaux: finite table for all partitions of `N ≤ 8`
+
+`tableauxOK λ` (model file) says: the enumeration `allTableaux λ` (model of the recursion in
+`_get_all_young_tableaux_hf0`) has exactly `hookLength λ` elements (model of `get_hook_length`), which is also
+the number given by the corner-removal recurrence, every element is a standard filling of `λ`, and the
+elements are strictly increasing in lexicographic order (hence pairwise distinct).  The hook-length
+formula itself is not in Mathlib; the finite table below is the quantifier the property states. -/
+
+theorem lexLt_irrefl : ∀ a : List Nat, lexLt a a = false
+  | [] => rfl
+  | x :: xs => by simp [lexLt, lexLt_irrefl xs]
+
+theorem lexLt_trans : ∀ a b c : List Nat, lexLt a b = true → lexLt b c = true → lexLt a c = true
+  | [], [], _, h, _ => by simp [lexLt] at h
+  | [], _ :: _, [], _, h => by simp [lexLt] at h
+  | [], _ :: _, _ :: _, _, _ => by simp [lexLt]
+  | _ :: _, [], _, h, _ => by simp [lexLt] at h
+  | _ :: _, _ :: _, [], _, h => by simp [lexLt] at h
+  | x :: xs, y :: ys, z :: zs, h1, h2 => by
+    simp only [lexLt, Bool.or_eq_true, decide_eq_true_eq, Bool.and_eq_true, beq_iff_eq] at *
+    rcases h1 with h1 | ⟨rfl, h1⟩
+    · rcases h2 with h2 | ⟨rfl, _⟩
+      · left; omega
+      · left; exact h1
+    · rcases h2 with h2 | ⟨rfl, h2⟩
+      · left; exact h2
+      · right; exact ⟨rfl, lexLt_trans xs ys zs h1 h2⟩
+
+theorem nodup_of_strictLex : ∀ l : List (List Nat), strictLex l = true → l.Nodup
+  | [], _ => List.nodup_nil
+  | [_], _ => List.nodup_singleton _
+  | a :: b :: rest, h => by
+    simp only [strictLex, Bool.and_eq_true] at h
+    have ih := nodup_of_strictLex (b :: rest) h.2
+    have hall : ∀ l : List (List Nat), ∀ b, strictLex (b :: l) = true → ∀ c ∈ l, lexLt b c = true := by
+      intro l
+      induction l with
+      | nil => intro b _ c hc; simp at hc
+      | cons d l ihl =>
+        intro b hb c hc
+        simp only [strictLex, Bool.and_eq_true] at hb
+        rcases List.mem_cons.1 hc with rfl | hc
+        · exact hb.1
+        · exact lexLt_trans _ _ _ hb.1 (ihl d hb.2 c hc)
+    refine List.nodup_cons.2 ⟨?_, ih⟩
+    intro hmem
+    rcases List.mem_cons.1 hmem with rfl | hmem
+    · rw [lexLt_irrefl] at h; simp at h
+    · have := lexLt_trans _ _ _ h.1 (hall rest b h.2 a hmem)
+      rw [lexLt_irrefl] at this; simp at this
+
+/-- what `tableauxOK` gives, in plain terms -/
+theorem tableauxOK_spec {shape : List Nat} (h : tableauxOK shape = true) :
+    (allTableaux shape).length = hookLength shape ∧
+    (allTableaux shape).length = sytCount shape.sum shape ∧
+    (∀ t ∈ allTableaux shape, isStandard shape t = true) ∧
+    (allTableaux shape).Nodup := by
+  simp only [tableauxOK, Bool.and_eq_true, beq_iff_eq, List.all_eq_true] at h
+  obtain ⟨⟨⟨h1, h2⟩, h3⟩, h4⟩ := h
+  exact ⟨h1, h2, h3, (nodup_of_strictLex _ h4).of_map _⟩
+
+private theorem tabOK_le6 : ((List.range' 1 6).all fun N => (shapes N).all tableauxOK) = true := by decide +kernel
+private theorem tabOK_7 : ((shapes 7).all tableauxOK) = true := by decide +kernel
+private theorem tabOK_8 : ((shapes 8).all tableauxOK) = true := by decide +kernel
+
+/-- **for every partition `λ` of `N ≤ 8`** (`shapes N` = the rows of `get_sym_group_young_diagram(N)`):
+`get_all_young_tableaux(λ)` returns exactly `get_hook_length(λ)` arrays, all standard fillings of `λ`,
+pairwise distinct. -/
+theorem tableaux_exact_le8 (N : Nat) (h1 : 1 ≤ N) (h8 : N ≤ 8) (shape : List Nat) (hs : shape ∈ shapes N) :
+    (allTableaux shape).length = hookLength shape ∧
+    (allTableaux shape).length = sytCount shape.sum shape ∧
+    (∀ t ∈ allTableaux shape, isStandard shape t = true) ∧
+    (allTableaux shape).Nodup := by
+  apply tableauxOK_spec
+  have h6 := tabOK_le6
+  simp only [List.all_eq_true, List.mem_range'_1] at h6
+  by_cases hN : N ≤ 6
+  · exact h6 N ⟨h1, by omega⟩ shape hs
+  · have : N = 7 ∨ N = 8 := by omega
+    rcases this with rfl | rfl
+    · exact (List.all_eq_true.1 tabOK_7) shape hs
+    · exact (List.all_eq_true.1 tabOK_8) shape hs
+
+/-- the full target (not proved): soundness, distinctness and the count for every shape. -/
+def tableaux_exact.Statement : Prop :=
+  ∀ shape : List Nat, checkShape shape = true →
+    (allTableaux shape).length = hookLength shape ∧
+    (∀ t ∈ allTableaux shape, isStandard shape t = true) ∧ (allTableaux shape).Nodup
+
+/-- not vacuous: there are 22 partitions of 8, and the shape (4,3,1) has 70 standard tableaux -/
+example : (shapes 8).length = 22 ∧ [4, 3, 1] ∈ shapes 8 ∧ (allTableaux [4, 3, 1]).length = 70 := by decide +kernel
 
 end Numqi.C14
